@@ -685,7 +685,9 @@ Definition sat (e : env) (l : list (tag * form)) : Prop := forall g f, In (g, f)
 (* solver configuration and create_objective() *)
 Inductive optimizer := OptIncremental | OptOptimize.
 Inductive priority := PrPareto | PrLex | PrBox | PrWeight.
-Record solvercfg := { cf_optimizer : optimizer; cf_priority : priority; cf_debug : bool; cf_logic : option nat;
+(* an SMT logic: its name (an index in the list the library accepts) and whether it has the theory of arrays *)
+Record logic := { lg_id : nat; lg_arrays : bool }.
+Record solvercfg := { cf_optimizer : optimizer; cf_priority : priority; cf_debug : bool; cf_logic : option logic;
                       cf_parallel : bool; cf_random : bool; cf_verbosity : nat }.
 Definition default_cfg : solvercfg :=
   {| cf_optimizer := OptIncremental; cf_priority := PrPareto; cf_debug := false; cf_logic := None;
@@ -710,11 +712,16 @@ Record setup := {
   su_directives : list (dirn * term);       (* minimize / maximize calls on z3.Optimize *)
   su_objective : option (term * dirn * option (Z * Z)) }.   (* self._objective: target, direction, bounds *)
 
+(* the level of a non-concurrent buffer is encoded with an array *)
+Definition needs_arrays (st : pstate) : bool := existsb (fun b => negb (b_conc b)) (x_bufs (ps_ext st)).
 Definition solver_setup (c : solvercfg) (st : pstate) : setup :=
   let objs := objectives st in
   let kind := match objs, cf_optimizer c with
               | _ :: _, OptOptimize => SkOptimize (cf_priority c)
-              | _, _ => match cf_logic c with None => SkSolver | Some l => SkSolverFor l end end in
+              | _, _ => match cf_logic c with
+                        | None => SkSolver
+                        | Some l => if needs_arrays st && negb (lg_arrays l) then SkSolver else SkSolverFor (lg_id l)
+                        end end in
   let equiv := uses_equivalent c st in
   {| su_kind := kind;
      su_asserts := initialize st ++ (if equiv then tagged TgObj (equivalent_asserts st) else []);
